@@ -210,7 +210,8 @@ pub fn run_history(acc: &mut Acc, r: &mut Rng, steps: u64) {
         } else if op < 40 {
             // B3: invalid bonds must be rejected
             let amount = r.range128(1, 1_000_000);
-            let (a, funds, kind): (Asset, Vec<Coin>, &str) = match r.below(6) {
+            let (a, funds, kind): (Asset, Vec<Coin>, &str) = match r.below(7) {
+                6 => (asset(d, amount), vec![coin(amount, DENOMS[1 - di])], "declared-one-listed-denom-sent-the-other"),
                 0 => (asset("notlisted", amount), vec![coin(amount, "notlisted")], "non-whitelisted-denom"),
                 1 => (Asset { info: AssetInfo::Token { contract_addr: "contract0".into() }, amount: Uint128::new(amount) }, vec![], "cw20-asset"),
                 2 => (asset(d, amount), vec![coin(amount + 1, d)], "amount-mismatch"),
